@@ -99,30 +99,83 @@ class Ctx:
                       "--out", os.path.join(LEAN, "TsVerif", "GenRaw"), "--status", status])
         st = json.load(open(status)) if os.path.exists(status) else {"items": [], "broken": [{"name": "translator", "error": out}]}
         self.gen_status = st
+        # Scope: a property answers only for the generated definitions its own model uses (the Gen modules
+        # its Lean files import, transitively).  A broken tie of a definition no model of this property
+        # mentions says nothing about this property and is recorded, not reported.
+        needed, def_mod = self.gen_scope()
+        self.coverage["gen_modules_used_by_this_property"] = sorted(needed)
+        elsewhere = []
         for it in st["broken"]:
-            self.oblige("tie:gen:" + it["name"], False, it.get("error", ""))
+            if def_mod.get(it["name"], "?") in needed or it["name"] not in def_mod:
+                self.oblige("tie:gen:" + it["name"], False, it.get("error", ""))
+            else:
+                elsewhere.append(it["name"])
         self.coverage["generated_items"] = len(st["items"])
         self.coverage["unguarded_subtractions"] = st.get("subsites", [])
         # the tie proofs
         ok, out, failed = self.lake_build(["TsVerif.Common.GenTie"])
         names = audit_names(os.path.join(LEAN, "TsVerif", "Common", "GenTieAudit.lean"))
+        label = "tie:regenerated-definitions=canonical-definitions(%d tie theorems)" % len(names)
         if ok:
             rc, aout = sh(["lake", "env", "lean", "TsVerif/Common/GenTieAudit.lean"], cwd=LEAN, timeout=1200)
             axioms = parse_axioms(aout)
             bad = [n for n in names if n not in axioms or set(axioms[n]) - ALLOWED_AXIOMS]
-            self.oblige("tie:regenerated-definitions=canonical-definitions(%d tie theorems)" % len(names), not bad,
-                        "not proved from accepted axioms: " + ", ".join(bad)[:300])
+            self.oblige(label, not bad, "not proved from accepted axioms: " + ", ".join(bad)[:300])
         else:
             broken = sorted(set(f.split(" ")[0] for f in failed))
-            self.oblige("tie:regenerated-definitions=canonical-definitions(%d tie theorems)" % len(names), False,
-                        "no longer provable: " + ", ".join(broken)[:400])
-            for b in broken[:6]:
-                self.violation("tie", "the definition regenerated from /repo is no longer provably equal to the canonical "
-                               "definition the theorems are about: " + b,
-                               {"tie_theorem": b, "file": "lean/TsVerif/Common/GenTie.lean",
-                                "regenerated": "lean/TsVerif/GenRaw", "canonical": "lean/TsVerif/Gen"}, found_input=False)
+            in_tie_file = all("(TsVerif/Common/GenTie.lean:" in f for f in failed)
+            mine = []
+            for b in broken:
+                d = b[4:] if b.startswith("tie_") else b
+                if in_tie_file and d in def_mod and def_mod[d] not in needed:
+                    elsewhere.append(d)
+                else:
+                    mine.append(b)
+            if mine:
+                self.oblige(label, False, "no longer provable: " + ", ".join(mine)[:400])
+                for b in mine[:6]:
+                    self.violation("tie", "the definition regenerated from /repo is no longer provably equal to the canonical "
+                                   "definition the theorems are about: " + b,
+                                   {"tie_theorem": b, "file": "lean/TsVerif/Common/GenTie.lean",
+                                    "regenerated": "lean/TsVerif/GenRaw", "canonical": "lean/TsVerif/Gen"}, found_input=False)
+            else:
+                self.oblige(label, True, "every tie of a definition this property's model uses (modules %s) is proved; "
+                            "broken ties of definitions it does not use: %s" % (",".join(sorted(needed)) or "none", ", ".join(sorted(set(elsewhere)))))
+        if elsewhere:
+            self.coverage["ties_broken_outside_this_property"] = sorted(set(elsewhere))
+            self.log("ties broken for definitions no model of %s uses (not this property's business): %s"
+                     % (self.prop, ", ".join(sorted(set(elsewhere)))))
         self.coverage["tie_theorems"] = len(names)
         return st["broken"]
+
+    def gen_scope(self):
+        """(Gen modules transitively imported by this property's Lean files and driver, {definition: Gen module})."""
+        def imports(mod):
+            try:
+                txt = open(os.path.join(LEAN, mod.replace(".", "/") + ".lean")).read()
+            except OSError:
+                return []
+            return re.findall(r"^import ((?:TsVerif|Drivers)\.[\w\.]+)", txt, re.M)
+        pdir = os.path.join(LEAN, "TsVerif", self.prop)
+        roots = ["Drivers." + self.prop]
+        if os.path.isdir(pdir):
+            roots += ["TsVerif.%s.%s" % (self.prop, f[:-5]) for f in os.listdir(pdir) if f.endswith(".lean")]
+        seen, todo = set(), roots
+        while todo:
+            m = todo.pop()
+            if m not in seen:
+                seen.add(m)
+                todo += imports(m)
+        needed = set(m.split(".")[-1] for m in seen if m.startswith("TsVerif.Gen."))
+        def_mod = {}
+        try:
+            spec = json.load(open(os.path.join(ROOT, "translator", "whitelist.json")))
+            for mod in spec["modules"]:
+                for it in mod["items"]:
+                    def_mod[it.get("lean_name") or it["name"]] = mod["name"]
+        except (OSError, ValueError, KeyError):
+            pass
+        return needed, def_mod
 
     def lake_build(self, targets):
         """Build Lean targets; returns (ok, output, failing theorem names)."""
